@@ -320,14 +320,16 @@ Section Scope.
     - cbn [qname ename xn_local]. destruct hetero; reflexivity.
   Qed.
 
+  (* syntactic dispatch: no unification of a list pattern against [opt1 .. ++ ..] *)
   Ltac rls :=
-    repeat first
-      [ apply RLs_nil
-      | apply RLs_one; [reflexivity|]
-      | apply RLs_app; [reflexivity| |]
-      | apply RLs_cons; [reflexivity| |]
-      | apply RLs_opt; [reflexivity|intros ? ?]
-      | apply RLs_map; [reflexivity|intros ? ?] ].
+    repeat lazymatch goal with
+      | |- RLs _ _ [] [] => apply RLs_nil
+      | |- RLs _ _ (_ ++ _) (_ ++ _) => apply RLs_app; [reflexivity| |]
+      | |- RLs _ _ [_] _ => apply RLs_one; [reflexivity|]
+      | |- RLs _ _ (_ :: _) (_ ++ _) => apply RLs_cons; [reflexivity| |]
+      | |- RLs _ _ (opt1 _ _) (opt_gen _ _) => apply RLs_opt; [reflexivity|intros ? ?]
+      | |- RLs _ _ (map _ _) (flat_map _ _) => apply RLs_map; [reflexivity|intros ? ?]
+      end.
 
   Lemma opt_ok_some : forall {A} (p : A -> bool) o x, opt_ok p o = true -> o = Some x -> p x = true.
   Proof. intros A p o x H E. subst o. exact H. Qed.
@@ -416,6 +418,21 @@ Section Scope.
     unfold t_color_limits, color_limits_xml. apply RL_struct.
     rls; apply RL_limit; ok_some.
   Qed.
+
+  Ltac side := first [assumption | ok_some].
+  Ltac rl :=
+    lazymatch goal with
+    | |- RL (t_string _ _ _) _ => apply RL_string
+    | |- RL (t_float _ _ _) _ => apply RL_float; side
+    | |- RL (t_int _ _ _) _ => apply RL_int
+    | |- RL (t_uint _ _ _) _ => apply RL_uint
+    | |- RL (t_date_time _ _ _) _ => apply RL_date_time; side
+    | |- RL (t_transform _ _ _) _ => apply RL_transform; side
+    | |- RL (t_cartesian_bounds _ _) _ => apply RL_cartesian_bounds; side
+    | |- RL (t_spherical_bounds _ _) _ => apply RL_spherical_bounds; side
+    | |- RL (t_index_bounds _ _) _ => apply RL_index_bounds
+    | |- _ => idtac
+    end.
 
   Ltac fin := unfold attr_bytes, ty, at_, attr, open_tag, close_tag;
               cbn [flat_map xa_name xa_value xn_local qname ename]; listnorm; reflexivity.
@@ -506,10 +523,7 @@ Section Scope.
   Proof.
     intros pc Hpc. unfold pointcloud_ok in Hpc. split_ok.
     unfold t_pointcloud, pointcloud_bytes, pointcloud_xml.
-    apply RL_struct. rls;
-      try apply RL_string; try apply RL_index_bounds; try apply RL_points; try assumption;
-      try (apply RL_float; ok_some); try (apply RL_date_time; ok_some); try (apply RL_transform; ok_some);
-      try (apply RL_cartesian_bounds; ok_some); try (apply RL_spherical_bounds; ok_some).
+    apply RL_struct. rls; rl.
     - (* originalGuids *)
       unfold original_guids_xml. eapply RL_ext.
       + apply RL_vector. apply RLs_map; [reflexivity|]. intros g _. apply RL_string.
@@ -523,6 +537,7 @@ Section Scope.
       pose proof Hc as Hc'. unfold intensity_limits_ok in Hc'. split_ok.
       match goal with Hx : intensity_limits_complete x = true |- _ => rewrite Hx end.
       apply RL_intensity_limits. exact Hc.
+    - apply RL_points. assumption.
   Qed.
 
   (** ** Image2D *)
@@ -541,22 +556,23 @@ Section Scope.
   Lemma RL_visual_reference : forall v, RL (t_visual_reference sc v) (visual_reference_xml v).
   Proof.
     intro v. unfold t_visual_reference, visual_reference_xml. apply RL_struct.
-    rls; try apply RL_image_blob; try apply RL_blob; apply RL_uint.
+    rls; rl; first [apply RL_image_blob | apply RL_blob].
   Qed.
 
   Lemma RL_projection : forall p, projection_ok p = true -> RL (t_projection sc p) (projection_xml p).
   Proof.
     intros [x|x|x] Hp; cbn [projection_ok t_projection projection_xml] in *; split_ok;
       unfold t_pinhole, pinhole_xml, t_spherical_image, spherical_image_xml, t_cylindrical_image, cylindrical_image_xml;
-      apply RL_struct; rls; try apply RL_image_blob; try apply RL_blob; try apply RL_uint; apply RL_float; assumption.
+      apply RL_struct; rls; rl; first [apply RL_image_blob | apply RL_blob].
   Qed.
 
   Lemma RL_image : forall i, image_ok i = true -> RL (t_image sc i) (image_xml i).
   Proof.
     intros i Hi. unfold image_ok in Hi. split_ok.
     unfold t_image, image_xml. apply RL_struct.
-    rls; try apply RL_string; try apply RL_visual_reference;
-      try (apply RL_projection; ok_some); try (apply RL_transform; ok_some); try (apply RL_date_time; ok_some).
+    rls; rl.
+    - apply RL_visual_reference.
+    - apply RL_projection. ok_some.
   Qed.
 End Scope.
 
@@ -592,13 +608,14 @@ Proof.
   cbn [xn_ns ename]. rewrite He57.
   cbn [or_default own_decls writer_elem_choice ec_merge ec_self_close ec_ws_close blanks filter merge_items map xn_local qname].
   rewrite writer_items.
-  rewrite (children_lines exts (ename (B "e57Root")) STRUCT_ATTRS ch body [0%nat]) by (reflexivity || exact Hch).
-  unfold lines. unfold scope_of at 2. rewrite map_app, flat_map_app.
+  unfold STRUCT_ATTRS in Hch.
+  rewrite (children_lines exts (ename (B "e57Root")) [ty (B "Structure")] ch body [0%nat]) by (reflexivity || exact Hch).
+  unfold lines. unfold scope_of at 2. rewrite !map_app, !flat_map_app.
   cbn [flat_map app map].
   change (item_bytes (scope_of exts) (ItAttr (ty (B "Structure")))) with (B " type=""Structure""").
   change (item_bytes (scope_of exts) (ItDecl (mkXNs None E57_URI)) ++ [])
     with (32 :: B "xmlns=""http://www.astm.org/COMMIT/E57/2010-e57-v1.0""").
-  rewrite <- !app_assoc.
+  rewrite <- !app_assoc. cbn [app].
   rewrite (decl_items (scope_of exts) exts).
   unfold root_open, close_tag, E57_NS. listnorm. reflexivity.
 Qed.
@@ -612,17 +629,17 @@ Qed.
 (** the bytes of the children of e57Root, grouped per child *)
 Definition root_body (m : file_meta) : list N :=
   let r := fm_root m in
-  gen_string (B "formatName") (rt_format r) ++
-  gen_string (B "guid") (rt_guid r) ++
-  gen_int (B "versionMajor") (rt_major_version r) ++
-  gen_int (B "versionMinor") (rt_minor_version r) ++
+  (gen_string (B "formatName") (rt_format r) ++
+   gen_string (B "guid") (rt_guid r) ++
+   gen_int (B "versionMajor") (rt_major_version r) ++
+   gen_int (B "versionMinor") (rt_minor_version r)) ++
   opt_gen (gen_string (B "coordinateMetadata")) (rt_coordinate_metadata r) ++
   opt_gen (gen_string (B "e57LibraryVersion")) (rt_library_version r) ++
   opt_gen (date_time_xml (B "creationDateTime")) (rt_creation r) ++
-  (open_tag (B "data3D") (B " type=""Vector"" allowHeterogeneousChildren=""" ++ B "1" ++ B """")
-     ++ LF ++ flat_map pointcloud_bytes (fm_pointclouds m) ++ close_tag (B "data3D") ++ LF) ++
-  (open_tag (B "images2D") (B " type=""Vector"" allowHeterogeneousChildren=""" ++ B "1" ++ B """")
-     ++ LF ++ flat_map image_xml (fm_images m) ++ close_tag (B "images2D") ++ LF).
+  ((open_tag (B "data3D") (B " type=""Vector"" allowHeterogeneousChildren=""" ++ B "1" ++ B """")
+      ++ LF ++ flat_map pointcloud_bytes (fm_pointclouds m) ++ close_tag (B "data3D") ++ LF) ++
+   (open_tag (B "images2D") (B " type=""Vector"" allowHeterogeneousChildren=""" ++ B "1" ++ B """")
+      ++ LF ++ flat_map image_xml (fm_images m) ++ close_tag (B "images2D") ++ LF)).
 
 Lemma gen_root_bytes : forall m, rt_format (fm_root m) = STD_FORMAT_NAME -> rt_guid (fm_root m) <> [] ->
   gen_root m = Ok (XML_DECL ++ LF ++ root_open (fm_extensions m) ++ root_body m ++ close_tag (B "e57Root") ++ LF).
@@ -647,13 +664,18 @@ Lemma root_children : forall m,
 Proof.
   intros m exts He57 Hcr Hpcs Himgs. eexists. split; [reflexivity|].
   unfold root_body. cbv zeta.
-  repeat first
-      [ apply RLs_nil
-      | apply RLs_one; [reflexivity|]
-      | apply RLs_app; [reflexivity| |]
-      | apply RLs_cons; [reflexivity| |]
-      | apply RLs_opt; [reflexivity|intros ? ?] ];
-    try (apply RL_string; exact He57); try (apply RL_int; exact He57).
+  repeat lazymatch goal with
+    | |- RLs _ _ _ [] [] => apply RLs_nil
+    | |- RLs _ _ _ (_ ++ _) (_ ++ _) => apply RLs_app; [reflexivity| |]
+    | |- RLs _ _ _ [_] _ => apply RLs_one; [reflexivity|]
+    | |- RLs _ _ _ (_ :: _) (_ ++ _) => apply RLs_cons; [reflexivity| |]
+    | |- RLs _ _ _ (opt1 _ _) (opt_gen _ _) => apply RLs_opt; [reflexivity|intros ? ?]
+    end;
+    lazymatch goal with
+    | |- RL _ (t_string _ _ _) _ => apply RL_string; exact He57
+    | |- RL _ (t_int _ _ _) _ => apply RL_int; exact He57
+    | |- _ => idtac
+    end.
   - apply RL_date_time; [exact He57|]. eapply opt_ok_some; eassumption.
   - apply (RL_vector exts He57 (B "data3D") true). apply RLs_map; [reflexivity|].
     intros pc Hin. apply RL_pointcloud; [exact He57|]. rewrite forallb_forall in Hpcs. auto.
@@ -674,10 +696,10 @@ Proof.
   { intro E. unfold gen_root, serialize_root in Hgen. rewrite E in Hgen. discriminate. }
   rewrite (gen_root_bytes m Hfmt Hguid) in Hgen. injection Hgen as <-.
   destruct (root_children m) as [ch [Hch Hrl]]; try assumption.
-  unfold render, tree_of. cbn [xd_children rc_bom rc_decl writer_choices render_decl render_doc_nodes rc_doc_ws blanks filter is_blank app].
-  change (blanks [10]) with [10]. cbn [N.eqb orb].
+  unfold render, tree_of. cbn [xd_children rc_bom rc_decl writer_choices render_decl render_doc_nodes rc_doc_ws app].
+  change (blanks [10]) with [10].
   rewrite Hch, (render_root (fm_extensions m) ch (root_body m) He57 Hrl).
-  unfold XML_DECL, DECL_STD, LF. listnorm. reflexivity.
+  unfold XML_DECL, DECL_STD, root_open, close_tag, E57_NS, LF. listnorm. reflexivity.
 Qed.
 
 (** non-vacuity: a file with an extension, a point cloud (extension record, bounds, limits, pose,
